@@ -185,7 +185,9 @@ PAIRS_THOROUGH = PAIRS_QUICK + [("ell", "unit"), ("you", "small"), ("inv:hollow"
 
 
 def specs(tier):
-    out = []
+    from checks.curvedops import containment_specs
+
+    out = containment_specs(tier)
     pairs = PAIRS_QUICK if tier == "quick" else PAIRS_THOROUGH
     for A, B in pairs:
         for swap in (False, True):
